@@ -44,7 +44,7 @@ func c04Forms(m string) map[string][]byte {
 func streamC04(h *H) {
 	n := h.N(6, 200)
 	for i := 0; i < n; i++ {
-		h.c04Repo(i + h.Shard*7)
+		h.c04Repo(i*h.NSh + h.Shard)
 	}
 }
 
